@@ -2211,6 +2211,8 @@ void resize_target_update_count(struct cds_lfht *ht,
 
 void cds_lfht_resize(struct cds_lfht *ht, unsigned long new_size)
 {
+	bool was_online;
+
 	resize_target_update_count(ht, new_size);
 
 	/*
@@ -2218,9 +2220,21 @@ void cds_lfht_resize(struct cds_lfht *ht, unsigned long new_size)
 	 */
 	uatomic_store(&ht->resize_initiated, 1);
 
+	/*
+	 * QSBR: wait for the resize mutex offline (its holder may be
+	 * waiting for a grace period), but perform the resize online:
+	 * it walks the hash chains within read-side critical sections,
+	 * which only protect an online thread.
+	 */
+	was_online = ht->flavor->read_ongoing();
+	if (was_online)
+		ht->flavor->thread_offline();
 	mutex_lock(&ht->resize_mutex);
+	ht->flavor->thread_online();
 	_do_cds_lfht_resize(ht);
 	mutex_unlock(&ht->resize_mutex);
+	if (!was_online)
+		ht->flavor->thread_offline();
 }
 
 static
